@@ -339,6 +339,7 @@ void run_child_c19(const Plan &P, const std::string &rundir)
         static char a0[] = "tsim";
         static char *argv[] = { a0, nullptr };
         C->app = new QCoreApplication(argc, argv);
+        C->quit_connected = true; // the configuration starts the logger thread under this application object
         install_quit_begin_marker();
     }
     QDir().mkpath(QString::fromStdString(rundir) + "/logs");
